@@ -115,7 +115,7 @@ def cases(tier, rng):
         yield Case(f"!prt.use {R.encode(a, totals=t).hex()} {PIX['mid'].hex()} 1", check=use_check, tag="totals")
 
 def search(drv, model, diverged, lean, rng):
-    cs = list(cases("thorough", rng))
+    cs = list(cases("quick", rng))      # a fresh sample (other seed) of the quick stream; the thorough one takes minutes
     outs = run_impl(drv, [c.line for c in cs])
     for c, o in zip(cs, outs):
         if o.startswith("fault:") or o == "hang": return c, o, f"implementation outcome {o}"
